@@ -26,6 +26,8 @@ I32 = (-2**31, 2**31 - 1)
 def palette(rng):
     ints = [I32[0] - 1, I32[0], I32[0] + 1, -1, 0, 1, I32[1] - 1, I32[1], I32[1] + 1, 2**32, -2**32, 2**63, -2**63]
     vals = [["none"], ["bool", True], ["bool", False], ["flt", 1.5], ["flt", -3.0], ["flt", 1e20], ["fltx", "inf"], ["fltx", "-inf"], ["fltx", "nan"], ["str", "1"], ["str", ""], ["list"], ["dict"], ["obj"], ["ienum"], ["senum"]]
+    # values that interact with string formatting of the error message (a tuple is what `%` unpacks), bytes, a set-like, a long string
+    vals += [["tuple", []], ["tuple", [1, 2]], ["tuple", [7]], ["tuple", ["%s", "%d"]], ["str", "%s %d {0} {x}"], ["str", "X" * 300]]
     vals += [["int", z] for z in ints] + [["int", rng.randrange(-2**40, 2**40)] for _ in range(10)]
     return vals
 
@@ -70,6 +72,8 @@ def cpv(v):
         return None          # non-finite floats have no exact ratio: not run through the model (real code + spec only)
     if k == "str":
         return "(VStr %s)" % V.q(v[1])
+    if k == "tuple":
+        return "(VTuple [%s])" % "; ".join(cpv(["int", x] if isinstance(x, int) else ["str", x]) for x in v[1])
     if k == "list":
         return "(VList [])"
     if k == "dict":
